@@ -24,7 +24,7 @@ class C04(Prop):
     def rule(self):
         return (
             "index: well-formed FASTA layouts (1-6 records, lengths 1,2,width,width+-1,multiples, random; widths "
-            "1..80; LF/CRLF; final newline present/absent; descriptions; ACGT/lower/IUPAC/N-run residues) x "
+            "1..80; LF/CRLF; final newline present/absent; descriptions; names holding FS/GS/RS/US bytes and VT/FF before the description in 15%; ACGT/lower/IUPAC/N-run residues) x "
             "buffer sizes {1,2,3,5,7,w-1,w,w+1,n-1,n,n+1,250000}; exhaustive tiny layouts (one record over {A,N} "
             "up to 5 (quick) / 7 (thorough) residues x width 1-4 x LF/CRLF x final newline); a separate malformed "
             "stream, every kind in turn (blank/ragged lines, no header, duplicate names -- apart and directly adjacent --, empty file, header only, mixed EOL). "
@@ -57,7 +57,7 @@ class C04(Prop):
                             yield {"gen": "tiny/index", "kind": "index", "layout": layout, "data": data,
                                    "buf": rng.choice([1, 2, 3, 250000])}
         for _ in range(160 if tier == "quick" else 2500):
-            layout = F.gen_fasta(rng)
+            layout = F.gen_fasta(rng, exotic=True)
             yield from self.cases_for(rng, layout, "wf")
         for k in range(88 if tier == "quick" else 880):
             kind, data = F.malformed(rng, F.MALFORMED_KINDS[k % len(F.MALFORMED_KINDS)])
